@@ -97,6 +97,18 @@ func (w *World) StartServer(cfg transport.ServerConfig, addr *net.UDPAddr) (*Ser
 	return se, nil
 }
 
+// AdoptServer registers a transport server that somebody else constructed on conn (the real
+// hopserver.NewHopServer through the listen seam) and starts its receive loop.
+func (w *World) AdoptServer(s *transport.Server, conn *simnet.Conn, addr *net.UDPAddr) *ServerEnd {
+	se := &ServerEnd{S: s, Conn: conn, Addr: addr, done: make(chan struct{})}
+	go func() {
+		s.Serve()
+		close(se.done)
+	}()
+	w.Servers = append(w.Servers, se)
+	return se
+}
+
 // Accept returns the next offered handle without waiting (nil if the server offers none).
 func (se *ServerEnd) Accept() *transport.Handle {
 	_, _, pending := se.S.VerifCounts()
